@@ -53,6 +53,10 @@ impl<T: Subject> Gen for Wrap<T> {
     fn clone_box(&self) -> Box<dyn Gen> {
         Box::new(Wrap(self.0.clone()))
     }
+    fn clone_from_dyn(&mut self, src: &dyn Gen) {
+        let o = src.as_any().downcast_ref::<Wrap<T>>().expect("clone_from across types");
+        self.0.clone_from(&o.0)
+    }
     fn eq_dyn(&self, other: &dyn Gen) -> Option<bool> {
         let o = other.as_any().downcast_ref::<Wrap<T>>().expect("eq_dyn across types");
         self.0.s_eq(&o.0)
@@ -214,6 +218,10 @@ impl<C: CoreSubject> Gen for CoreWrap<C> {
     }
     fn clone_box(&self) -> Box<dyn Gen> {
         Box::new(CoreWrap(self.0.clone()))
+    }
+    fn clone_from_dyn(&mut self, src: &dyn Gen) {
+        let o = src.as_any().downcast_ref::<CoreWrap<C>>().expect("clone_from across types");
+        self.0.clone_from(&o.0)
     }
     fn eq_dyn(&self, other: &dyn Gen) -> Option<bool> {
         let o = other.as_any().downcast_ref::<CoreWrap<C>>().expect("eq_dyn across types");
@@ -589,6 +597,16 @@ impl<F: Fn() -> u64 + Send + Sync + Clone + 'static> Gen for JitterGen<F> {
         let script = LAST_FORK.with(|l| l.borrow_mut().take()).unwrap_or_else(|| self.script.clone());
         Box::new(JitterGen { rng, script })
     }
+    fn clone_from_dyn(&mut self, src: &dyn Gen) {
+        let o = src.as_any().downcast_ref::<JitterGen<F>>().expect("clone_from across types");
+        LAST_FORK.with(|l| *l.borrow_mut() = None);
+        self.rng.clone_from(&o.rng);
+        // if the timer was cloned, this generator now reads from the cloned cursor; if clone_from left
+        // the old timer in place, it keeps reading from its own
+        if let Some(sc) = LAST_FORK.with(|l| l.borrow_mut().take()) {
+            self.script = sc;
+        }
+    }
     fn eq_dyn(&self, _other: &dyn Gen) -> Option<bool> {
         None
     }
@@ -613,6 +631,30 @@ impl<F: Fn() -> u64 + Send + Sync + Clone + 'static> Gen for JitterGen<F> {
 fn make_jitter(script: Arc<TimerScript>, forking: bool) -> Box<dyn Gen> {
     let timer = timer_closure(Cursor { script: script.clone(), forking });
     Box::new(JitterGen { rng: JitterRng::new_with_timer(timer), script })
+}
+
+/// Zero-sized timers: three distinct `fn` item types reading from process-wide script slots.
+static ZST_SLOTS: [Mutex<Option<Arc<TimerScript>>>; 3] = [Mutex::new(None), Mutex::new(None), Mutex::new(None)];
+fn zst_read(k: usize) -> u64 {
+    let s = ZST_SLOTS[k].lock().unwrap().clone().expect("zst timer slot not set");
+    s.read()
+}
+fn zst_timer_0() -> u64 {
+    zst_read(0)
+}
+fn zst_timer_1() -> u64 {
+    zst_read(1)
+}
+fn zst_timer_2() -> u64 {
+    zst_read(2)
+}
+fn make_jitter_zst(slot: usize, script: Arc<TimerScript>) -> Box<dyn Gen> {
+    *ZST_SLOTS[slot].lock().unwrap() = Some(script.clone());
+    match slot {
+        0 => Box::new(JitterGen { rng: JitterRng::new_with_timer(zst_timer_0), script }),
+        1 => Box::new(JitterGen { rng: JitterRng::new_with_timer(zst_timer_1), script }),
+        _ => Box::new(JitterGen { rng: JitterRng::new_with_timer(zst_timer_2), script }),
+    }
 }
 
 // ------------------------------------------------------------------------------------------------
@@ -736,6 +778,9 @@ impl Registry for Reg {
     fn jitter_forking(&self, script: Arc<TimerScript>) -> Box<dyn Gen> {
         make_jitter(script, true)
     }
+    fn jitter_zst(&self, slot: usize, script: Arc<TimerScript>) -> Box<dyn Gen> {
+        make_jitter_zst(slot, script)
+    }
     fn jitter_info(&self) -> &TypeInfo {
         &self.jitter_info
     }
@@ -807,4 +852,37 @@ fn assert_send_sync() {
     ss::<Isaac64Rng>();
     ss::<Isaac64Core>();
     ss::<JitterRng<fn() -> u64>>();
+}
+
+// ------------------------------------------------------------------------------------------------
+// logging: rand_jitter's optional `log` feature is on in the harness build, with a logger that
+// formats every record at every level, so that the argument expressions of the crate's log
+// statements are evaluated in every check
+// ------------------------------------------------------------------------------------------------
+pub static LOG_RECORDS: std::sync::atomic::AtomicU64 = std::sync::atomic::AtomicU64::new(0);
+struct SinkLogger;
+impl log::Log for SinkLogger {
+    fn enabled(&self, _: &log::Metadata) -> bool {
+        true
+    }
+    fn log(&self, record: &log::Record) {
+        use std::fmt::Write;
+        struct Null(usize);
+        impl Write for Null {
+            fn write_str(&mut self, s: &str) -> std::fmt::Result {
+                self.0 += s.len();
+                Ok(())
+            }
+        }
+        let mut n = Null(0);
+        let _ = write!(n, "{}", record.args());
+        std::hint::black_box(n.0);
+        LOG_RECORDS.fetch_add(1, std::sync::atomic::Ordering::Relaxed);
+    }
+    fn flush(&self) {}
+}
+static SINK: SinkLogger = SinkLogger;
+pub fn install_logger() {
+    let _ = log::set_logger(&SINK);
+    log::set_max_level(log::LevelFilter::Trace);
 }
